@@ -46,7 +46,7 @@ BOUNDS = {
     "quick": dict(models=12, arg_variants="1-3 per model", pool=6, subset_size_max=3, builders="| chain for every subset, .at[..].set chain for every second subset of size >= 2", jit=False),
     "thorough": dict(models=12, arg_variants="1-3 per model", pool=6, subset_size_max=6, builders="| chain for every subset, .at[..].set chain for every second subset of size >= 2", jit="size<=2 subsets"),
 }
-JOBS = {"quick": 6, "thorough": 12}
+JOBS = {"quick": 8, "thorough": 12}
 
 SL = "<slice>"  # full-slice level in a pool address
 N = 3
@@ -346,7 +346,7 @@ def read(result, addr, direct):
     return outs
 
 
-def _run(name, ai, tier):
+def _run(name, ai, tier, half):
     def run(ctx):
         L = lib()
         M = _models()[name]
@@ -366,7 +366,9 @@ def _run(name, ai, tier):
                 invalid = [i for i in sub if static_part(pool[i]) not in T]
                 mixed = mixed_sort(addrs)
                 n_sub += 1
-                for builder in ("or", "at") if (n_sub % 2 == 0 and k >= 2) else ("or",):
+                if n_sub % 2 != half:
+                    continue  # the other half of the subsets is the sibling case
+                for builder in ("or", "at") if ((n_sub // 2) % 2 == 0 and k >= 2) else ("or",):
                     key = (name, ai, sub, builder)
                     ctx.ev(key, nontrivial=k > 0)
                     detail = dict(model=name, args_variant=ai, subset=[list(map(str, a)) for a in addrs],
@@ -386,7 +388,7 @@ def _run(name, ai, tier):
                                  dict(detail, message=str(e)[:200]))
                         continue
                     _compare(ctx, name, cls, detail, res, pool, sub, invalid, mixed)
-        if tier == "thorough":
+        if tier == "thorough" and half == 0:
             _jit_pass(ctx, name, ai, gf, args, T, pool)
 
     return run
@@ -487,4 +489,6 @@ def _jit_pass(ctx, name, ai, gf, args, T, pool):
 def cases(tier, seed):
     for name in MODEL_NAMES:
         for ai in range(N_ARGS.get(name, 1)):
-            yield Case(f"{name}/args{ai}", _run(name, ai, tier), dict(model=name, args_variant=ai))
+            for half in (0, 1):  # two cases per model: the subsets are dealt out alternately
+                yield Case(f"{name}/args{ai}/h{half}", _run(name, ai, tier, half),
+                           dict(model=name, args_variant=ai, subsets="every second subset, offset %d" % half))
